@@ -5,6 +5,7 @@ import (
 	"fmt"
 	"io/ioutil"
 	"math"
+	"os"
 	"path/filepath"
 	"strconv"
 	"time"
@@ -27,14 +28,14 @@ func (c06) Meta() fw.Meta {
 		ID: "C06",
 		Rule: "case = (layout accepted by both validators, method, xff, clock, 3-6 write sessions). Session writers alternate or are fixed: whispertool only / go-whisper only / alternating (whispertool: write, Sync, Close; go-whisper: Update/UpdateMany, Close). " +
 			"Monitor A after every session: the harness' independent byte parser checks big-endian header fields == requested, offsets contiguous from 16+12k in declaration order, length == 16+12k+12*sum(N), every non-empty slot j holds a step-aligned interval I with floor_mod((I-base)/S,N)==j. " +
-			"Monitor B after every session: go-whisper and whispertool open the same bytes on one shared virtual clock; metadata (method, xff, max retention, retentions) and Fetch(from,until) over ~25 non-degenerate windows must agree (bounds, step, values bitwise, NaN==NaN). " +
+			"Monitor B after every session: go-whisper and whispertool open the same bytes on one shared virtual clock; metadata (method, xff, max retention, retentions) and Fetch(from,until) over ~25 non-degenerate windows must agree (bounds, step, values bitwise, NaN==NaN), also when both readers' clock is behind the writer's (slots then hold intervals newer than requested). Some files are created by whispertool over an existing longer zero-filled file (WithOpenFileFlag without O_EXCL). " +
 			"Every 8th case instead runs the real generate / copy / sum-copy binaries (incl. destinations created with nothing to copy) and applies Monitor A and the reference's Open to the files they wrote. non-trivial = file written by both libraries with at least one stale-lap or wrapped window compared; distinct by (layout, clock, ops).",
 		Assumptions: []string{
 			"degenerate windows (aligned from == aligned until after clamping) are excluded as the property's quantifier does",
 			"both libraries run on the same virtual clock (whispertool.Now / explicit now, whisper.Now); clock domain as C01 but below 2^31 + 2^30 so that go-whisper's int arithmetic and the 32-bit file fields agree",
 			"go-whisper at the version pinned by the repository's go.mod is the reference",
 		},
-		Obligations: []string{"format_checks", "nonempty_slots_checked", "metadata_compared", "windows_compared", "whispertool_written_sessions", "gowhisper_written_sessions", "alternating_files", "values_compared_non_nan", "stale_or_empty_compared", "far_jumps", "cli_written_files_checked", "cli_created_with_nothing_to_copy"},
+		Obligations: []string{"format_checks", "nonempty_slots_checked", "metadata_compared", "windows_compared", "whispertool_written_sessions", "gowhisper_written_sessions", "alternating_files", "values_compared_non_nan", "stale_or_empty_compared", "far_jumps", "reader_clock_behind_windows", "created_over_existing_longer_file", "cli_written_files_checked", "cli_created_with_nothing_to_copy"},
 	}
 }
 
@@ -205,7 +206,20 @@ func (c06) Run(c *fw.Ctx) {
 		creator = "go-whisper"
 	}
 	if creator == "whispertool" {
-		db, err := createFile(path, l)
+		var copts []wt.Option
+		if c.Index%10 == 4 {
+			// Create over an existing, longer file (documented option WithOpenFileFlag without O_EXCL):
+			// the result must still have exactly the format's length
+			// (a zero-filled placeholder: with this flag Create keeps whatever bytes the caller left in place,
+			// so non-zero junk would be the caller's content, not something whispertool wrote)
+			junk := make([]byte, l.FileSize()+int64(1+r.Intn(50000)))
+			if err := ioutil.WriteFile(path, junk, 0644); err != nil {
+				panic(err)
+			}
+			copts = append(copts, wt.WithOpenFileFlag(os.O_RDWR|os.O_CREATE))
+			c.Count("created_over_existing_longer_file", 1)
+		}
+		db, err := createFile(path, l, copts...)
 		if err != nil {
 			c.Violationf("create-failed", fw.J{"layout": l, "err": err.Error()}, "whispertool Create failed: %v", err)
 			return
@@ -410,6 +424,44 @@ func (c06) Run(c *fw.Ctx) {
 				}
 			}
 		}
+		// the same bytes read by both readers whose clock is BEHIND the writer's (another host, a stepped clock):
+		// slots may then hold intervals newer than the ones asked for
+		for wi := 0; wi < 6 && !c.Violated(); wi++ {
+			a := l.Archs[r.Intn(len(l.Archs))]
+			back := []int64{int64(a.Step), a.Ret() / 2, a.Ret(), a.Ret() + int64(a.Step)*int64(1+r.Intn(3))}[r.Intn(4)]
+			rnow := now - back
+			if rnow < l.MaxRet()+2*l.MaxStep() {
+				continue
+			}
+			whisper.Now = func() time.Time { return time.Unix(rnow, 0) }
+			from := rnow - r.Int63n(a.Ret()+1)
+			until := from + r.Int63n(rnow-from+1)
+			sh := model.FetchShape(l, -1, from, until, rnow)
+			if sh.Err || sh.Absent {
+				continue
+			}
+			aa := l.Archs[sh.Arch]
+			if model.AlignNext(maxI64(from, rnow-aa.Ret()), aa.Step) == model.AlignNext(minI64(until, rnow), aa.Step) {
+				continue
+			}
+			g, gerr := gw.Fetch(int(from), int(until))
+			w, werr := db.FetchFromArchive(wt.ArchiveIDBest, u32(from), u32(until), u32(rnow))
+			c.Count("reader_clock_behind_windows", 1)
+			det := fw.J{"layout": l, "info": info, "from": from, "until": until, "reader_now": rnow, "writer_now": now}
+			if gerr != nil || werr != nil || g == nil || w == nil || len(g.Values()) != len(w.Values()) || g.FromTime() != int(w.FromTime()) {
+				c.Violationf("readers-disagree-shape", det, "reader clock %d behind the writer's %d, window [%d,%d]: the two readers disagree on the series shape", rnow, now, from, until)
+				continue
+			}
+			for i, gv := range g.Values() {
+				wv := float64(w.Values()[i])
+				if !(math.IsNaN(gv) && math.IsNaN(wv)) && math.Float64bits(gv) != math.Float64bits(wv) {
+					det["interval"] = g.FromTime() + i*g.Step()
+					c.Violationf("readers-disagree-value", det, "reader clock %d behind the writer's %d, interval %d: go-whisper reads %v, whispertool reads %v", rnow, now, g.FromTime()+i*g.Step(), gv, wv)
+					break
+				}
+			}
+		}
+		setClock()
 		db.Close()
 		gw.Close()
 	}
